@@ -272,8 +272,8 @@ impl Resolver {
 //@   endghost
 //@   loop 1 binder it
             invariant
-                self.inv(), it.seq().len() == self.stack@.len(), //# C07,C09 lookup.loop1.aux1
-                forall|j: int| 0 <= j < self.stack@.len() ==> *(#[trigger] it.seq()[j]) == self.stack@[self.stack@.len() - 1 - j], //# C07 lookup.loop1.aux2
+                self.inv(), it.seq().len() == self.stack@.len(), //# C09,C02 lookup.loop.scans_the_whole_stack
+                forall|j: int| 0 <= j < self.stack@.len() ==> *(#[trigger] it.seq()[j]) == self.stack@[self.stack@.len() - 1 - j], //# C09,C02 lookup.loop.scans_innermost_first
                 forall|i: int| self.stack@.len() - it.index@ <= i < self.stack@.len() ==> (#[trigger] self.stack@[i]).0@ != name@, //# C09 lookup.loop.no_inner_match_skipped
 //@   endloop
 //@   ghost before
@@ -374,17 +374,17 @@ impl Resolver {
                     old(self).stack@.len() > 0 ==> forall|i: int| 0 <= i < args@.len() ==> e_nodecl(#[trigger] args@[i]), //# C07 assignable.loop1.aux2
                     self.inv(), e_up(*function, self.variables@.len() as int), forall|i: int| 0 <= i < args@.len() ==> e_up(#[trigger] args@[i], self.variables@.len() as int), //# C07,C09 assignable.loop1.aux3
                     forall|i: int| 0 <= i < args@.len() ==> e_shape(#[trigger] args@[i]), //# C07 assignable.loop1.aux4
-                    it1.seq().len() == parser_args@.len(), args@.len() == it1.index@, //# C07 assignable.loop1.aux5
-                    forall|k: int| 0 <= k < parser_args@.len() ==> *(#[trigger] it1.seq()[k]) == parser_args@[k], //# C07 assignable.loop1.aux6
+                    it1.seq().len() == parser_args@.len(), args@.len() == it1.index@, //# - assignable.loop1.aux5
+                    forall|k: int| 0 <= k < parser_args@.len() ==> *(#[trigger] it1.seq()[k]) == parser_args@[k], //# - assignable.loop1.aux6
                     forall|k: int| 0 <= k < args@.len() ==> rel_e(#[trigger] parser_args@[k], args@[k]), //# C14 assignable.loop1.call_arguments_in_order
 //@   endloop
 //@   loop 2 binder it2
                 invariant self.stack@ == old(self).stack@, self.frame(old(self)), //# C09,C02 assignable.loop2.scope_stack_between_iterations
-                    args@.len() == it2.index@ + 1, it2.seq().len() == assignable.kind->ArrowCall_2@.len(), //# C07 assignable.loop2.aux2
+                    args@.len() == it2.index@ + 1, it2.seq().len() == assignable.kind->ArrowCall_2@.len(), //# - assignable.loop2.aux2
                     old(self).stack@.len() > 0 ==> forall|i: int| 0 <= i < args@.len() ==> e_nodecl(#[trigger] args@[i]), //# C07 assignable.loop2.aux3
                     self.inv(), e_up(*function, self.variables@.len() as int), forall|i: int| 0 <= i < args@.len() ==> e_up(#[trigger] args@[i], self.variables@.len() as int), //# C07,C09 assignable.loop2.aux4
                     forall|i: int| 0 <= i < args@.len() ==> e_shape(#[trigger] args@[i]), //# C07 assignable.loop2.aux5
-                    forall|k: int| 0 <= k < parser_args@.len() ==> *(#[trigger] it2.seq()[k]) == parser_args@[k], //# C07 assignable.loop2.aux6
+                    forall|k: int| 0 <= k < parser_args@.len() ==> *(#[trigger] it2.seq()[k]) == parser_args@[k], //# - assignable.loop2.aux6
                     rel_e(xp, args@[0]), //# C14 assignable.loop2.aux7
                     forall|k: int| 0 <= k < it2.index@ ==> rel_e(#[trigger] parser_args@[k], args@[k + 1]), //# C14 assignable.loop2.arrow_call_arguments_follow_the_receiver
 //@   endloop
@@ -425,8 +425,8 @@ impl Resolver {
                 old(self).stack@.len() > 0 ==> forall|i: int| 0 <= i < values@.len() ==> e_nodecl(#[trigger] values@[i]), //# C07 collection.loop1.aux2
                 self.inv(), forall|i: int| 0 <= i < values@.len() ==> e_up(#[trigger] values@[i], self.variables@.len() as int), //# C07,C09 collection.loop1.aux3
                 forall|i: int| 0 <= i < values@.len() ==> e_shape(#[trigger] values@[i]), //# C07 collection.loop1.aux4
-                it.seq().len() == expr@.len(), values@.len() == it.index@, //# C07 collection.loop1.aux5
-                forall|k: int| 0 <= k < expr@.len() ==> *(#[trigger] it.seq()[k]) == expr@[k], //# C07 collection.loop1.aux6
+                it.seq().len() == expr@.len(), values@.len() == it.index@, //# - collection.loop1.aux5
+                forall|k: int| 0 <= k < expr@.len() ==> *(#[trigger] it.seq()[k]) == expr@[k], //# - collection.loop1.aux6
                 forall|k: int| 0 <= k < values@.len() ==> rel_e(#[trigger] expr@[k], values@[k]), //# C14 collection.loop.members_in_order
 //@   endloop
 //@ end
@@ -617,8 +617,8 @@ impl Resolver {
                         old(self).stack@.len() > 0 ==> forall|i: int| 0 <= i < branches@.len() ==> ib_nodecl(#[trigger] branches@[i]), //# C07 expression.loop1.aux2
                         self.inv(), forall|i: int| 0 <= i < branches@.len() ==> ib_up(#[trigger] branches@[i], self.variables@.len() as int), //# C07,C09 expression.loop1.aux3
                         forall|i: int| 0 <= i < branches@.len() ==> ib_shape(#[trigger] branches@[i]), //# C07 expression.loop1.aux4
-                        itb.seq().len() == parser_branches@.len(), branches@.len() == itb.index@, //# C07 expression.loop1.aux5
-                        forall|k: int| 0 <= k < parser_branches@.len() ==> *(#[trigger] itb.seq()[k]) == parser_branches@[k], //# C07 expression.loop1.aux6
+                        itb.seq().len() == parser_branches@.len(), branches@.len() == itb.index@, //# - expression.loop1.aux5
+                        forall|k: int| 0 <= k < parser_branches@.len() ==> *(#[trigger] itb.seq()[k]) == parser_branches@[k], //# - expression.loop1.aux6
                         forall|k: int| 0 <= k < branches@.len() ==> rel_ib(#[trigger] parser_branches@[k], branches@[k]), //# C14 expression.loop1.if_branches_in_order
 //@   endloop
 //@   loop 2 binder itc
@@ -626,22 +626,22 @@ impl Resolver {
                         old(self).stack@.len() > 0 ==> forall|i: int| 0 <= i < branches@.len() ==> cb_nodecl(#[trigger] branches@[i]), //# C07 expression.loop2.aux2
                         self.inv(), e_up(*to_match, self.variables@.len() as int), forall|i: int| 0 <= i < branches@.len() ==> cb_up(#[trigger] branches@[i], self.variables@.len() as int), //# C07,C09 expression.loop2.aux3
                         forall|i: int| 0 <= i < branches@.len() ==> cb_shape(#[trigger] branches@[i]), //# C07 expression.loop2.aux4
-                        itc.seq().len() == parser_branches@.len(), branches@.len() == itc.index@, //# C07 expression.loop2.aux5
+                        itc.seq().len() == parser_branches@.len(), branches@.len() == itc.index@, //# - expression.loop2.aux5
 //@   endloop
 //@   loop 3 binder itp
                     invariant is_prefix(old(self).stack@, self.stack@), self.frame(old(self)), ss == old(self).stack@.len(), //# C09,C02 expression.loop3.scope_stack_between_iterations
                         params_const(params@, self.variables@), //# C04 expression.loop.parameters_are_constants
                         self.stack@.len() == ss + params@.len(), //# C07 expression.loop3.aux2
                         self.inv(), //# C07,C09 expression.loop3.aux3
-                        itp.seq().len() == parser_params@.len(), params@.len() == itp.index@, //# C07 expression.loop3.aux4
+                        itp.seq().len() == parser_params@.len(), params@.len() == itp.index@, //# - expression.loop3.aux4
 //@   endloop
 //@   loop 4 binder itf
                     invariant self.stack@ == old(self).stack@, self.frame(old(self)), //# C09,C02 expression.loop4.scope_stack_between_iterations
                         old(self).stack@.len() > 0 ==> fields_nodecl(fields@), //# C07 expression.loop4.aux2
                         self.inv(), (blob as int) < self.variables@.len(), (self_var as int) < self.variables@.len(), fields_up(fields@, self.variables@.len() as int), //# C07,C09 expression.loop4.aux3
                         forall|i: int| 0 <= i < fields@.len() ==> e_shape((#[trigger] fields@[i]).1), //# C07 expression.loop4.aux4
-                        itf.seq().len() == parser_fields@.len(), fields@.len() == itf.index@, //# C07 expression.loop4.aux5
-                        forall|k: int| 0 <= k < parser_fields@.len() ==> *(#[trigger] itf.seq()[k]) == parser_fields@[k], //# C07 expression.loop4.aux6
+                        itf.seq().len() == parser_fields@.len(), fields@.len() == itf.index@, //# - expression.loop4.aux5
+                        forall|k: int| 0 <= k < parser_fields@.len() ==> *(#[trigger] itf.seq()[k]) == parser_fields@[k], //# - expression.loop4.aux6
                         forall|k: int| 0 <= k < fields@.len() ==> (#[trigger] fields@[k]).0 == parser_fields@[k].0 && rel_e(parser_fields@[k].1, fields@[k].1), //# C14 expression.loop4.blob_fields_in_order
 //@   endloop
 //@ end
